@@ -1,8 +1,15 @@
 /- GENERATED from lean/obligations.json by /verif/check. `lake env lean GoSquare/Audit.lean` prints the
    axioms every registered property theorem depends on; accepted: propext, Classical.choice, Quot.sound. -/
+import GoSquare.Properties.C05
 import GoSquare.Properties.C13
 import GoSquare.Properties.C15
 import GoSquare.Properties.C18
+import GoSquare.Properties.C20
+#print axioms GoSquare.C05.aligned_block_is_row_inner_node
+#print axioms GoSquare.C05.subtree_roots_are_row_inner_nodes
+#print axioms GoSquare.C05.chunks_getElem
+#print axioms GoSquare.C05.commitment_is_merkle_root_of_subtree_roots
+#print axioms GoSquare.Nmt.aligned_inner
 #print axioms GoSquare.C13.counter_history
 #print axioms GoSquare.C13.add_increment
 #print axioms GoSquare.C13.add_revert
@@ -26,3 +33,6 @@ import GoSquare.Properties.C18
 #print axioms GoSquare.C18.validateForBlob_spec
 #print axioms GoSquare.C18.new_spec
 #print axioms GoSquare.C18.fromBytes_spec
+#print axioms GoSquare.C20.lookup_returns_the_run
+#print axioms GoSquare.C20.sorted_decomposition
+#print axioms GoSquare.C20.lookup_on_sorted
